@@ -54,8 +54,10 @@ def legal(sc):
         return False
     if sc["caller_kind"] == 2 and (sc["pool2"] == 0 or sc["caller_idx"] >= sc["pool2"]):
         return False
-    if sc["api"] == 0 and sc["caller_kind"] == 1 and (sc["flags"] & F_SYNC) and not (sc["flags"] & (F_SELF_SKIP | F_SELF_DIRECT)):
-        return False    # documented self-deadlock: sync broadcast waiting for its own thread
+    if (sc["api"] == 0 and sc["caller_kind"] == 1 and (sc["flags"] & F_SYNC) and not (sc["flags"] & (F_SELF_SKIP | F_SELF_DIRECT))
+            and sc["pool"] > 1):
+        return False    # documented self-deadlock: sync broadcast waiting for its own thread (a pool of one has no other
+                        # thread to wait for: the library runs the callback in place and the call must return)
     if sc["api"] == 0 and sc["caller_kind"] == 1 and (sc["flags"] & F_SYNC) and (sc["flags"] & F_SELF_SKIP) == 0 and sc["pass_src"] == 0:
         pass
     return True
@@ -115,6 +117,10 @@ def gen_scenarios(tier, seed):
                     ck = rng.choice([0, 1]) if api == 0 else 1
                     add(mk(rng, family="wfault", pool=pool, caller_kind=ck, caller_idx=rng.below(pool), api=api, flags=fl, nb=1,
                            pass_src=rng.below(2), wkind=rng.choice([1, 2, 3]), wpos=[k], perturb=rng.choice([0, 100])))
+    # D2: the only thread of a pool broadcasts synchronously to its own pool without any self flag
+    for i in range(2 * scale):
+        add(mk(rng, family="sync-from-only-thread", pool=1, caller_kind=1, caller_idx=0, api=0,
+               flags=F_SYNC | rng.choice([0, F_SYNC_USLEEP]), nb=rng.choice([1, 3]), pass_src=i % 2))
     # E: back-to-back synchronous broadcasts from one frame, decrement point perturbed
     for i in range(10 * scale):
         pool = rng.choice([2, 3, 4, 8])
@@ -394,7 +400,7 @@ def run(tier):
         report.merge(part)
     report.extra["scenario_families"] = fams
     report.assumptions = [
-        "synchronous broadcast from a pool thread without self-skip/self-direct is excluded (documented self-deadlock)",
+        "synchronous broadcast from a pool thread without self-skip/self-direct is excluded for pools of two or more threads (documented self-deadlock); the only thread of a one-thread pool is driven",
         "completion-thread affinity is relaxed when a queue write failed during that broadcast (documented FAIL_DIRECT fallback)",
         "interleavings are sampled by stress + seeded perturbation, not enumerated",
     ]
